@@ -4,6 +4,7 @@ import (
 	"bytes"
 	"fmt"
 	"math/big"
+	"time"
 	"net/url"
 	"strings"
 	"testing"
@@ -250,6 +251,51 @@ func TestPolicy(t *testing.T) {
 					c.Outcome("nt:reject:" + why)
 				}
 				c.SimTime(1)
+			}
+			// history on ONE object: the publisher edits the exchange it has just verified -
+			// one response header renamed, the number of headers unchanged - signs it again
+			// and verifies again; the verdict must be the new policy's, not a remembered one
+			if c.Bool("editAndReverify") && integrityEdit == "" && overflowEdit == "" {
+				var names []string
+				for _, k := range core.SortedKeys(map[string][]string(pub.ResponseHeaders)) {
+					lk := strings.ToLower(k)
+					if lk != "content-type" && lk != "digest" && lk != "mi-draft2" && lk != "content-encoding" && lk != "cache-control" && lk != "expires" {
+						names = append(names, k)
+					}
+				}
+				if len(names) > 0 {
+					old := names[c.Pick("reverify.header", len(names))]
+					nn := c.PickStr("reverify.newName", "Set-Cookie", "sEt-cOOkie2", "X-Renamed-Ok", "Keep-Alive", "X-Other")
+					if _, exists := pub.ResponseHeaders[nn]; !exists && !strings.EqualFold(nn, old) {
+						v := pub.ResponseHeaders[old]
+						delete(pub.ResponseHeaders, old)
+						pub.ResponseHeaders[nn] = v
+						var rn []string
+						for _, n := range p.RespHeaderNames {
+							if n == old || strings.EqualFold(n, old) {
+								rn = append(rn, nn)
+							} else {
+								rn = append(rn, n)
+							}
+						}
+						p2 := p
+						p2.RespHeaderNames = rn
+						if err := pub.AddSignatureHeader(l.Signer()); err == nil {
+							tm := time.Unix(l.Date, 0)
+							want, why := refsxg.Accept(p2, tm.Unix(), 0, statusUnderstood)
+							v := verify(c, pub, tm, net)
+							if c.Oracle("C09") && v.pi == nil {
+								if v.ok && !want {
+									c.Violation("accepted-violating-exchange", "after edit and re-sign: "+why, "the same object, edited (%q -> %q) and signed again, was accepted although it violates: %s", old, nn, why)
+								}
+								if !v.ok && want {
+									c.Violation("rejected-conforming-exchange", "after edit and re-sign", "the same object, edited (%q -> %q) and signed again, was rejected although it meets every condition", old, nn)
+								}
+							}
+							c.Probe("same object edited, re-signed and re-verified")
+						}
+					}
+				}
 			}
 			c.Sig("%s/%v", l.Version, kinds)
 		})
